@@ -2,7 +2,7 @@
    with EVERY bundled module loaded (loader model on the GENERATED texts). *)
 From Coq Require Import String List NArith Arith Bool.
 Import ListNotations.
-From ABNF Require Import Base Engine Spec Wf Checks WfCheck Cert LangEq Restrict Schema
+From ABNF Require Import Base Engine Spec Wf Checks WfCheck Cert LangEq LangEq2 Restrict Schema
      AbnfRead Registry GenTypes Loader GenBundled Bundled TablesAll Pairs.
 Open Scope string_scope.
 
@@ -48,7 +48,49 @@ Lemma known_difference_witness :
   end = true.
 Proof. vm_cast_no_check (eq_refl true). Qed.
 
-Opaque l_all pairs19 keep19a keep19b R_all.
+(* generic: language equality shown on the sub-grammar restricted to [keep] holds in the whole grammar and for the engine *)
+Lemma sub_langeq2_gen l keep pairs n f ef :
+  sub_ok n l keep = true -> pairs_ok l l keep keep pairs = true ->
+  lang_eq_check2 (restrict l keep) (restrict l keep) pairs f ef = true ->
+  forall a b, In (a, b) pairs -> forall sh, perm_oracle sh ->
+  (forall s i j, M (of_list l) s (ERef a) i j <-> M (of_list l) s (ERef b) i j) /\
+  (forall s, accepts sh (of_list l) a s <-> accepts sh (of_list l) b s).
+Proof.
+  intros Hok Hpo Heq a b Hab sh Hsh.
+  pose proof Hpo as Hp. unfold pairs_ok in Hp. rewrite forallb_forall in Hp. specialize (Hp (a, b) Hab).
+  cbn [fst snd] in Hp.
+  apply andb_true_iff in Hp. destruct Hp as [Hp Hdb]. apply andb_true_iff in Hp. destruct Hp as [Hp Hmb].
+  apply andb_true_iff in Hp. destruct Hp as [Hma Hda].
+  assert (Hcu : closed_under_check l keep = true).
+  { pose proof Hok as H. unfold sub_ok in H. apply andb_true_iff in H. destruct H as [H _].
+    apply andb_true_iff in H. destruct H as [H _]. apply andb_true_iff in H. destruct H as [H _]. exact H. }
+  assert (HM : forall s i j, M (of_list l) s (ERef a) i j <-> M (of_list l) s (ERef b) i j).
+  { intros s i j.
+    rewrite (M_restrict_transfer l keep Hcu s (ERef a) i j (incl_ref_keep a keep Hma)).
+    rewrite (M_restrict_transfer l keep Hcu s (ERef b) i j (incl_ref_keep b keep Hmb)).
+    exact (lang_eq_sound2 _ _ pairs f ef Heq a b Hab s i j). }
+  split; [exact HM|]. intros s.
+  destruct (sub_engine_M n l keep Hok a Hma Hda sh Hsh) as [_ Ha].
+  destruct (sub_engine_M n l keep Hok b Hmb Hdb sh Hsh) as [_ Hb].
+  rewrite (Ha s), (Hb s). apply HM.
+Qed.
+
+(* the two pairs whose equality needs the subsumption rule of LangEq2 ("ISO-8859-1" is subsumed by mime-charset): checked on the
+   sub-grammar reachable from them, then transferred *)
+Definition pairs19u : list (rid * rid) := rid_pairs (filter is_undecided c19_pairs).
+Definition keep19u : list rid := Restrict.reach l_all 60 (map fst pairs19u ++ map snd pairs19u).
+Lemma count19u : List.length pairs19u = 2. Proof. vm_compute. reflexivity. Qed.
+Lemma ok19u : sub_ok 40 l_all keep19u = true. Proof. vm_cast_no_check (eq_refl true). Qed.
+Lemma pairs_ok19u : pairs_ok l_all l_all keep19u keep19u pairs19u = true. Proof. vm_cast_no_check (eq_refl true). Qed.
+Lemma eq19u : lang_eq_check2 (restrict l_all keep19u) (restrict l_all keep19u) pairs19u 60 60 = true. Proof. vm_cast_no_check (eq_refl true). Qed.
+
+Opaque l_all pairs19 keep19a keep19b R_all pairs19u keep19u.
+
+Lemma c19u : forall a b, In (a, b) pairs19u -> forall sh, perm_oracle sh ->
+  (forall s i j, M (of_list l_all) s (ERef a) i j <-> M (of_list l_all) s (ERef b) i j) /\
+  (forall s, accepts sh (of_list l_all) a s <-> accepts sh (of_list l_all) b s).
+Proof. exact (sub_langeq2_gen l_all keep19u pairs19u 40 60 60 ok19u pairs_ok19u eq19u). Qed.
+
 
 Lemma c19 : forall a b, In (a, b) pairs19 -> forall sh, perm_oracle sh ->
   (forall s, accepts sh (of_list l_all) a s <-> accepts sh (of_list l_all) b s) /\
